@@ -172,7 +172,10 @@ func specs(tier core.Tier) []ListSpec {
 	}
 	// larger maps (5-6 entries): rotations and adjacent transpositions only
 	out = append(out, ListSpec{Styles: []int{0, 1, 2, 3, 4, 5}, Regions: []int{0, 1, 2}, Dates: true},
-		ListSpec{Styles: []int{0, 0, 1, 2, 5}, Regions: []int{0, 1, 2, 0, 1, 2}, Dates: true})
+		ListSpec{Styles: []int{0, 0, 1, 2, 5}, Regions: []int{0, 1, 2, 0, 1, 2}, Dates: true},
+		// "independent of the number of styles and regions": counts past the usual small-size thresholds (8, 16)
+		ListSpec{Styles: []int{0, 1, 2, 3, 4, 5, 0, 1, 2}, Regions: []int{0, 1, 2, 0, 1, 2, 0, 1, 2}, Dates: true},
+		ListSpec{Styles: []int{0, 1, 2, 3, 4, 5, 0, 1, 2, 3, 4, 5, 0, 1, 2, 3, 4}, Regions: []int{0, 1, 2, 0, 1, 2, 0, 1, 2, 0, 1, 2, 0, 1, 2, 0, 1}, Dates: true})
 	return out
 }
 
